@@ -50,6 +50,8 @@ def readCS (c : Cfg) : P CS := do
   secExpect 4
   let values ← readVA c
   let v ← readInt32 c
+  -- repair F21: a negative property count is refused, as `sbdf_cs_skip` always did
+  if v < 0 then P.fail .invalidSize else
   if v > 0 then do
     -- repair F9: `v * sizeof(void*)` must fit the `int` parameter of sbdf_alloc
     if v > INT_MAX / 8 then P.fail .invalidSize else
